@@ -31,7 +31,7 @@ COND_MIN = 1e-3       # predict-reproduces-embedding is compared only if sigma_m
 #                       un-normalised embedding row has norm > COND_MIN (the hypothesis sigma != 0 of the theorem)
 TOL_PREDICT = 1e-7    # predict(row i) vs embedding_row_[i] under that conditioning guard
 
-SOLVER_EXCEPTION_BUDGET = {'quick': 10, 'thorough': 50}   # fits lost to ARPACK / LAPACK (counted, never judged)
+SOLVER_EXCEPTION_BUDGET = {'quick': 3, 'thorough': 10}    # solver exceptions on inputs of the domain that are only counted
 EVALUATION_FLOOR = {'quick': 3000, 'thorough': 15000}      # a run that evaluates less did not check the property
 
 RULE = ('all undirected graphs n<=4 (loops n<=3; unit or random symmetric weights for n=4) x decomposition x regularisation x '
@@ -43,20 +43,29 @@ RULE = ('all undirected graphs n<=4 (loops n<=3; unit or random symmetric weight
         '(csc/coo/lil/dense), dtype (float32/int64/bool) or storage (unsorted indices, duplicate entries); matrices with '
         'explicitly stored zeros (bridging components or one-sided) x regularisation incl. -1; the operators Laplacian / '
         'Regularizer / Normalizer on their own with negative, zero and positive factor; predict on rows of the fitted matrix '
-        'incl. empty rows; RandomProjection x (random_walk, regularisation, n_iter, alpha); LouvainEmbedding x isolated_nodes; '
+        'incl. empty rows - a predicted row is compared (run and spec line) iff, decided from the input and the captured '
+        'solver output only, sigma_min > 1e-3 sigma_max when the prediction is divided by a power of sigma (PCA, '
+        'factor_singular != 0) and, when normalized, the un-normalised embedding of the row has norm > 1e-3 (normalize '
+        'maps a numerically null row to an arbitrary unit vector); a GSVD input is in the domain iff no regularised '
+        'weight is negative (decided from the input); RandomProjection x (random_walk, regularisation, n_iter, alpha); LouvainEmbedding x isolated_nodes; '
         'a degenerate stream (1 node, empty matrix, n_components <= 0 or too large, rank-deficient, stored zeros, isolated node). '
         'A case is non-trivial when the estimator did not raise and returned at least one component on a matrix with '
         'at least two stored entries; distinct = distinct (estimator, matrix, parameters, variant, check).')
 ASSUMPTIONS = [
     'ARPACK (eigsh/svds) and LAPACK return eigenpairs / singular triplets of the operator they are given: checked on every '
-    'captured output by contract lines (residual <= TOL_CONTRACT*scale, orthonormal vectors); a failing contract is counted '
-    'and the public outputs are judged by the spec lines all the same',
+    'captured output by contract lines (residual <= TOL_CONTRACT*scale; for eigsh also orthonormal vectors); a failing '
+    'contract is counted and the public outputs are judged by the spec lines all the same',
     'extremality (which part of the spectrum) and the number of components are judged against a dense LAPACK oracle '
-    '(numpy eigvalsh / svd of the small operator); not judged for n > 20 when the part of the spectrum at the cut is '
-    'degenerate (a Lanczos process finds one copy of a multiple eigenvalue): counted as degenerate-spectrum-skipped',
-    'an exception of the solver itself (ArpackError, LinAlgError) removes the fit (counted, budget %r per run: above it the '
-    'run is a tool failure); any other exception is a disagreeing run line; a run with fewer than %r evaluations is a tool failure'
+    '(numpy eigvalsh / svd of the documented matrix); when n > 20 (large graphs, block adjacency of directed 11/12-node '
+    'graphs) and the spectrum is degenerate at the cut, only: every returned value is an eigenvalue below the '
+    '(count+1)-th distinct one; not judged for the random walk on a graph with a node of regularised degree zero '
+    '(D^-1 does not exist: scope)',
+    'an exception of ARPACK / LAPACK passed on by fit on an input of the domain is counted only for the first %r per run '
+    '(quick / thorough) and is a failing input beyond that; any other exception is a disagreeing run line; self-loops-only '
+    'graphs with regularization=0 (zero Laplacian) are counted apart; a run with fewer than %r evaluations is a tool failure'
     % (SOLVER_EXCEPTION_BUDGET, EVALUATION_FLOOR),
+    'no case is dropped because of what the implementation returned: the domain (negative regularised weights) and the '
+    'conditioning masks of predict are decided from the input and the captured solver output',
     'np.linalg.qr / RandomState.normal are redrawn by the harness from the same seed; Louvain labels are captured',
     'scipy sparse products, np.argsort: the run line is skipped when two captured values are exactly equal (both sides sort '
     'the same floats, so exact equality is the only tie), the spec line alone judges then',
@@ -148,14 +157,18 @@ VEC_KEYS = {'ev', 'sv', 'wc', 'v', 'mean'}
 
 
 def close(x, y, tol=TOL_RUN):
-    if x != x and y != y:
+    if (x != x and y != y) or x == y:
         return True
     return abs(x - y) <= tol * (1 + abs(x))
 
 
 def same_answer(model, impl, tol=TOL_RUN):
+    if model.startswith('err') and impl.startswith('err'):
+        # same place, same refusal: the class of the exception is the external solver's wording (svds raised ValueError for
+        # k outside 0 < k < min(shape), eigsh on the Gram operator raises TypeError for the same k)
+        return True
     if model.startswith('err') or impl.startswith('err'):
-        return model == impl
+        return False
     if not (model.startswith('ok') and impl.startswith('ok')):
         return False
     a, b = parse_answer(model), parse_answer(impl)
@@ -201,28 +214,49 @@ def call(f):
         return 'err ' + type(e).__name__
 
 
-class SkipCase(Exception):
-    """Raised by the harness's own solver on an input outside the quantifier (operator with NaN entries)."""
+class NonFiniteOperator(Exception):
+    """Raised by the harness's own dense solver when the implementation hands it an operator with NaN / inf entries
+    (on an input of the domain this is a failure of the implementation: it becomes `err NonFiniteOperator`)."""
+
+
+SOLVER_ERRORS = ('ArpackNoConvergence', 'ArpackError', 'LinAlgError')
 
 
 def run_est(ctx, f):
-    """Run an estimator.  Only a failure of the external solver itself (ARPACK / LAPACK) makes the fit
-    disappear (counted, budgeted in `run`); the five exception classes of the models become `err <Class>`; every other
-    exception becomes `err <Class>` too, so that the run line disagrees with a model that answers `ok`."""
-    from scipy.sparse.linalg import ArpackError
+    """Run an estimator: `ok`, or `err <Class>` for *every* exception.  What an `err` of the external solver
+    (ARPACK / LAPACK) means is decided by the caller from the input (`solver_failure`)."""
     try:
         return f()
-    except SkipCase as e:
-        ctx.count('outside-quantifier:' + str(e))
-        return None
-    except (ArpackError, np.linalg.LinAlgError) as e:      # LinAlgError is a ValueError: test it first
-        ctx.count('solver-exception:' + type(e).__name__)
-        return None
     except ERRORS as e:
         return 'err ' + type(e).__name__
     except Exception as e:
-        ctx.count('unexpected-exception:' + type(e).__name__)
+        if type(e).__name__ not in SOLVER_ERRORS:
+            ctx.count('unexpected-exception:' + type(e).__name__)
         return 'err ' + type(e).__name__
+
+
+def solver_failure(ctx, status, key, sig, desc):
+    """The estimator passed on an exception of ARPACK / LAPACK on an input of the domain.  The first few per run are
+    counted only (`SOLVER_EXCEPTION_BUDGET`: ARPACK may legitimately fail to converge once in a while); beyond the budget
+    "fit raises on a legitimate input" is a failure of the property, with the input as replay."""
+    name = status.split(' ')[1]
+    used = getattr(ctx, '_c09_solver_lost', 0)
+    if used < SOLVER_EXCEPTION_BUDGET[ctx.tier]:
+        ctx._c09_solver_lost = used + 1
+        ctx.count('solver-exception:' + name)
+        ctx.note('solver exception counted only: %s %s on %s' % (status, desc.get('params'), desc.get('matrix')))
+        return None
+    return Fit([], lambda ok: [Case(key + ('raised',), dict(sig, check='fit-raises-on-legitimate-input'), None, status,
+                                    'c09.spec_raised ' + name, True, desc)])
+
+
+def gsvd_in_domain(dense, reg):
+    """A negative regularisation that makes a regularised row or column weight negative is outside the quantifier
+    (powers of negative weights are NaN in the code and in the model alike).  Decided from the input alone."""
+    if not reg or reg > 0:
+        return True
+    nr, ncol = dense.shape
+    return bool(np.all(dense.sum(axis=1) + reg >= 0) and np.all(dense.sum(axis=0) + nr * reg / ncol >= 0))
 
 
 # ---- input variants: the same matrix in another container / dtype / storage ---------------------------------------
@@ -329,16 +363,32 @@ def patch():
 
     sp_mod.LanczosEig = CapEig
     le_mod.Louvain = CapLouvain
-    orig_svds = svd_mod.svds
-    if not getattr(orig_svds, '_c09_cap', False):
-        def cap_svds(*a, **k):
-            u, s, vt = orig_svds(*a, **k)
-            CAP['svds'] = (np.array(u), np.array(s), np.array(vt))
-            CAP['svds_call'] = {'matrix': a[0] if a else k.get('A'), 'k': a[1] if len(a) > 1 else k.get('k'),
-                                'which': k.get('which', 'LM')}
-            return u, s, vt
-        cap_svds._c09_cap = True
-        svd_mod.svds = cap_svds
+    # LanczosSVD: record the operator and k it is asked for (class-level wrapper: also the instances the estimators create
+    # themselves on the default solver="lanczos" path), and the `which` it hands to ARPACK (svds in the first version of
+    # the code, eigsh on the Gram operator since /repo bac4e07a)
+    if not getattr(svd_mod.LanczosSVD.fit, '_c09_cap', False):
+        orig_fit = svd_mod.LanczosSVD.fit
+
+        def cap_fit(self, matrix, n_components, init_vector=None):
+            CAP['lanczos_fit'] = {'matrix': matrix, 'k': n_components}
+            return orig_fit(self, matrix, n_components, init_vector)
+        cap_fit._c09_cap = True
+        svd_mod.LanczosSVD.fit = cap_fit
+    for fname in ('svds', 'eigsh'):
+        orig = getattr(svd_mod, fname, None)
+        if orig is None or getattr(orig, '_c09_cap', False):
+            continue
+
+        def make(orig, fname):
+            def cap(*a, **k):
+                out = orig(*a, **k)
+                CAP['svds_call'] = {'which': k.get('which', 'LM'), 'function': fname}
+                if fname == 'svds':
+                    CAP['svds'] = tuple(np.array(x) for x in out)
+                return out
+            cap._c09_cap = True
+            return cap
+        setattr(svd_mod, fname, make(orig, fname))
     _patched = True
 
 
@@ -364,7 +414,7 @@ def make_solvers():
             self.matrix, self.k = matrix, n_components
             dense = dense_of(matrix)
             if not np.all(np.isfinite(dense)):
-                raise SkipCase('non-finite-operator')      # negative regularisation made a weight negative: NaN powers
+                raise NonFiniteOperator('the operator handed to the solver has NaN / inf entries')
             if not (isinstance(n_components, (int, np.integer)) and 0 < n_components < min(dense.shape)):
                 raise ValueError('`k` must be an integer satisfying `0 < k < min(A.shape)`.')
             u, s, vt = np.linalg.svd(dense, full_matrices=False)
@@ -388,7 +438,7 @@ def make_solvers():
             CAP['svds'] = None
             np.random.seed(12345)
             r = super().fit(matrix, n_components, init_vector)
-            self.raw = CAP.get('svds')
+            self.raw = CAP.get('svds')      # only when the code still calls svds
             return r
 
     return DenseSolver, CapLanczos, dense_of
@@ -434,24 +484,34 @@ def spec_case(key, sig, line, desc, nontrivial=True):
 
 # ---------------------------------------------------------------- Spectral
 def spectral_oracle(adj, reg, rw, nc):
-    """Dense oracle (LAPACK): the eigenvalues the documentation promises — those of the regularised Laplacian in
-    increasing order (of the transition matrix in decreasing order), the first skipped, `min(n_components, n-2)` of them."""
+    """Dense oracle (LAPACK) for the documented matrices: the eigenvalues of the regularised Laplacian `D_reg - A_reg` in
+    increasing order, or of the transition matrix `D_reg^-1 A_reg` in decreasing order (computed through the similar
+    symmetric matrix `I - D^-1/2 A_reg D^-1/2`), the first skipped, `min(n_components, n-2)` of them.
+    Returns a dict; `defined` is False for the random walk on a graph with a node of (regularised) degree zero: `D^-1`
+    does not exist there and the documentation does not say what the decomposition is (scope, see the status file)."""
     n = adj.shape[0]
     r = oracle_reg(adj, reg)
     areg = adj + r / n
     d = areg.sum(axis=1)
     lap = np.diag(d) - areg
     if rw:
-        with np.errstate(all='ignore'):
-            sq = np.sqrt(d)
-            s = np.where(sq == 0, 0., 1. / np.where(sq == 0, 1., sq))
+        if np.any(d == 0):
+            return {'defined': False}
+        s = 1. / np.sqrt(d)
         lap = s[:, None] * lap * s[None, :]
     w = np.linalg.eigvalsh((lap + lap.T) / 2)
     count = max(0, min(nc, n - 2))
+    eps = 1e-6 * (1 + np.abs(w).max())
     window = w[:count + 2]
-    degenerate = bool(len(window) > 1 and np.min(np.diff(window)) < 1e-6 * (1 + np.abs(w).max()))
-    w = w[1:1 + count]
-    return ((1 - w) if rw else w), degenerate
+    degenerate = bool(len(window) > 1 and np.min(np.diff(window)) < eps)
+    distinct = [w[0]]
+    for x in w[1:]:
+        if x - distinct[-1] >= eps:
+            distinct.append(x)
+    bound = distinct[min(count, len(distinct) - 1)]      # the (count+1)-th distinct eigenvalue
+    want = w[1:1 + count]
+    return {'defined': True, 'want': (1 - want) if rw else want, 'degenerate': degenerate, 'spectrum': w, 'bound': bound,
+            'count': count}
 
 
 def fit_spectral(ctx, a, nc, dec, reg, normalized, fb=False, variant=None):
@@ -476,20 +536,17 @@ def fit_spectral(ctx, a, nc, dec, reg, normalized, fb=False, variant=None):
             est.fit(a_in, force_bipartite=fb)
         return 'ok'
     status = run_est(ctx, f)
-    if status is None:
+    gkey = ('Spectral', a.shape, a.indptr.tobytes(), a.indices.tobytes(), a.data.tobytes(), nc, dec, reg, normalized, fb,
+            repr(variant))
+    if status.startswith('err') and status.split(' ')[1] in SOLVER_ERRORS:
         blk = block(dense) if (fb or nr != ncol or not np.array_equal(dense, dense.T)) else dense
         if oracle_reg(blk, reg) == 0 and not np.any(blk - np.diag(np.diag(blk))):
             # only self-loops and no regularisation: the Laplacian is the zero operator, every vector is an eigenvector and
-            # ARPACK refuses to start ("starting vector is zero"); stated in the status file, not part of the budget
-            ctx.count('zero-laplacian:ArpackError')
-            if hasattr(ctx, 'dist'):
-                ctx.dist['solver-exception:ArpackError'] = ctx.dist.get('solver-exception:ArpackError', 1) - 1
-        else:
-            ctx.note('solver exception in Spectral.fit: %s on %s' % (params, mat_desc(a)))
-        return None
+            # ARPACK refuses to start ("starting vector is zero"); stated in the status file, decided from the input
+            ctx.count('zero-laplacian:' + status.split(' ')[1])
+            return None
+        return solver_failure(ctx, status, gkey, sig0, desc)
     cap = CAP.get('eig')
-    gkey = ('Spectral', a.shape, a.indptr.tobytes(), a.indices.tobytes(), a.data.tobytes(), nc, dec, reg, normalized, fb,
-            repr(variant))
     head = 'c09.spectral %d %d %s %d %s %d %s %s %s' % (nr, ncol, enc_mat(dense), a.nnz, enc_bool(fb), nc,
                                                        enc_bool(rw), enc_f(reg), enc_bool(normalized))
     if status != 'ok' or cap is None:
@@ -531,15 +588,28 @@ def fit_spectral(ctx, a, nc, dec, reg, normalized, fb=False, variant=None):
                                                           enc_vec(est.eigenvalues_), enc_mat(est.eigenvectors_), enc_f(TOL_SPEC))
         cases.append(Case(gkey + ('run',), dict(sig0, check='eigen-equation'), run, impl, spec, nontriv, desc))
         # extremality and count: the documented part of the spectrum, from a dense eigendecomposition
-        want, degenerate = spectral_oracle(adj, reg, rw, nc)
-        if degenerate and n > 20:
-            # a Lanczos process started from one vector finds one copy of a multiple eigenvalue; with ncv = 20 < n ARPACK
-            # may miss the other copies (unregularised disconnected graphs): the multiset is not judged there
-            ctx.count('degenerate-spectrum-skipped')
+        orc = spectral_oracle(adj, reg, rw, nc)
+        if not orc['defined']:
+            # random walk with a node of degree zero and no regularisation: D^-1 does not exist; outside the scope
+            ctx.count('rw-zero-degree-unjudged')
+        elif orc['degenerate'] and n > 20:
+            # a Lanczos process started from one vector finds one copy of a multiple eigenvalue; with ncv = 20 < n (block
+            # adjacency of a directed 11- or 12-node graph, larger graphs) ARPACK may miss the other copies: the multiset
+            # is not judged there, but every returned value must be an eigenvalue below the (count+1)-th distinct one
+            ctx.count('degenerate-spectrum-weaker-judgement')
+            got_sym = (1 - np.asarray(est.eigenvalues_, dtype=float)) if rw else np.asarray(est.eigenvalues_, dtype=float)
+            cases.append(spec_case(gkey + ('among',), dict(sig0, check='extremal-eigenvalues', degenerate=True),
+                                   'c09.spec_among %s %s %s %s' % (enc_vec(orc['spectrum']), enc_vec(got_sym),
+                                                                  enc_f(orc['bound']), enc_f(TOL_SPEC)), desc,
+                                   nontriv and len(got_sym) == orc['count']))
+            if len(got_sym) != orc['count']:
+                cases.append(spec_case(gkey + ('count',), dict(sig0, check='extremal-eigenvalues', degenerate=True),
+                                       'c09.spec_extreme %s %s %s' % (enc_vec(np.zeros(orc['count'])), enc_vec(np.zeros(len(got_sym))),
+                                                                      enc_f(TOL_SPEC)), desc, nontriv))
         else:
             cases.append(spec_case(gkey + ('extreme',), dict(sig0, check='extremal-eigenvalues'),
-                                   'c09.spec_extreme %s %s %s' % (enc_vec(want), enc_vec(est.eigenvalues_), enc_f(TOL_SPEC)),
-                                   desc, nontriv))
+                                   'c09.spec_extreme %s %s %s' % (enc_vec(orc['want']), enc_vec(est.eigenvalues_),
+                                                                  enc_f(TOL_SPEC)), desc, nontriv))
         full = np.vstack([est.embedding_row_, est.embedding_col_]) if bip else est.embedding_
         if normalized:
             cases.append(spec_case(gkey + ('unit',), dict(sig0, check='unit-norm'),
@@ -622,15 +692,17 @@ def fit_svd(ctx, kind, a, nc, reg=None, fr=0.5, fc=0.5, fs=0., normalized=True, 
         est = PCA(nc, normalized=normalized, solver=sol)
     CAP['svds'] = None
     CAP['svds_call'] = None
+    CAP['lanczos_fit'] = None
 
     def f():
         with warnings.catch_warnings():
             warnings.simplefilter('ignore')
             est.fit(a_in)
         return 'ok'
-    status = run_est(ctx, f)
-    if status is None:
+    if kind != 'PCA' and not gsvd_in_domain(dense, reg):
+        ctx.count('outside-quantifier:negative-regularised-weight')
         return None
+    status = run_est(ctx, f)
     gkey = (kind, a.shape, a.indptr.tobytes(), a.indices.tobytes(), a.data.tobytes(), nc, reg, fr, fc, fs, normalized, solver,
             repr(variant))
     regtok = enc_optf(reg)
@@ -639,12 +711,19 @@ def fit_svd(ctx, kind, a, nc, reg=None, fr=0.5, fc=0.5, fs=0., normalized=True, 
     else:
         head = 'c09.gsvd %d %d %s %d %d %s %s %s %s %s' % (nr, ncol, enc_mat(dense), a.nnz, nc, regtok, enc_f(fr),
                                                           enc_f(fc), enc_f(fs), enc_bool(normalized))
+    if status.startswith('err') and status.split(' ')[1] in SOLVER_ERRORS:
+        if kind == 'PCA' and np.all(dense == dense[0]):
+            # all rows equal: the centred matrix is the zero operator, no principal direction is defined and ARPACK refuses
+            # to start; decided from the input, stated in the status file
+            ctx.count('zero-operator:' + status.split(' ')[1])
+            return None
+        return solver_failure(ctx, status, gkey, sig0, desc)
     if status != 'ok':
         run = head + ' - _ _'
         return Fit([], lambda ok: [Case(gkey + ('run',), dict(sig0, check='run'), run, status, None, False, desc)])
     if solver == 'string':
         sol = est.solver          # the LanczosSVD the estimator created for itself
-        call_ = CAP.get('svds_call') or {}
+        call_ = CAP.get('lanczos_fit') or {}
         sol_matrix, sol_k, raw = call_.get('matrix'), call_.get('k'), CAP.get('svds')
     else:
         sol_matrix, sol_k, raw = sol.matrix, sol.k, getattr(sol, 'raw', None)
@@ -678,6 +757,11 @@ def fit_svd(ctx, kind, a, nc, reg=None, fr=0.5, fc=0.5, fs=0., normalized=True, 
                                   'c09.svdpost %d %d %s %s %s' % (nr, ncol, enc_mat(u0), enc_vec(s0), enc_mat(vt0)),
                                   'ok which=%s sv=%s left=%s right=%s' % (which, out_vec(sv_c), out_mat(u_c), out_mat(v_c)),
                                   None, True, desc))
+        elif solver != 'dense':
+            # the pre-sort triple is not observable any more (eigsh on the Gram operator + QR + dense SVD): the part of the
+            # spectrum asked from ARPACK is still compared
+            cases.append(Case(gkey + ('which',), {'entry': 'LanczosSVD.fit', 'check': 'which'}, 'c09.svdwhich',
+                              'ok which=%s' % which, None, True, desc))
         if not ok:
             ctx.count(('operator-mismatch:' + kind) if solver_ok else ('contract-failed:' + solver))
         k_out = len(est.singular_values_)
@@ -704,10 +788,8 @@ def fit_svd(ctx, kind, a, nc, reg=None, fr=0.5, fc=0.5, fs=0., normalized=True, 
             if has_ties(sv_c):
                 ctx.count('tie-skipped')
                 run = None
-        if not np.all(np.isfinite(est.embedding_row_)) or not np.all(np.isfinite(est.embedding_col_)):
-            # sigma = 0 with a negative power etc.: outside the quantifier (the theorems need sigma != 0)
-            ctx.count('nonfinite-skipped')
-            return cases
+        # no skip keyed on the implementation's output: on an input of the domain a NaN / inf in the public attributes is
+        # a disagreement with the model and a failing spec line
         cases.append(Case(gkey + ('run',), dict(sig0, check='singular-triplets-and-embedding'), run, impl, spec, nontriv, desc))
         # extremality and count: the largest singular values of the operator (dense LAPACK oracle), as many as documented
         sv_all = np.linalg.svd(op_dense, compute_uv=False)
@@ -736,32 +818,44 @@ def fit_svd(ctx, kind, a, nc, reg=None, fr=0.5, fc=0.5, fs=0., normalized=True, 
                                    desc, nontriv))
         # predict
         if predict_rows:
-            cases.extend(predict_cases(ctx, kind, est, a, dense, reg, fr, fc, fs, normalized, predict_rows, gkey, desc, k_out))
+            cases.extend(predict_cases(ctx, kind, est, a, dense, reg, fr, fc, fs, normalized, predict_rows, gkey, desc, k_out,
+                                       sv_c, u_c))
         return cases
     return Fit([contract], builder)
 
 
-def predict_cases(ctx, kind, est, a, dense, reg, fr, fc, fs, normalized, rows, gkey, desc, k_out):
+def predict_cases(ctx, kind, est, a, dense, reg, fr, fc, fs, normalized, rows, gkey, desc, k_out, sv_c, u_c):
+    """predict on rows of the fitted matrix.  Which rows are compared is decided from the input and the captured solver
+    output only (never from the implementation's answer):
+      * when the prediction is divided by a power of sigma (PCA, factor_singular != 0) the rows are compared only if
+        sigma_min > COND_MIN * sigma_max (the hypothesis sigma > 0 of the theorem, numerically);
+      * when `normalized`, a row is compared only if its un-normalised embedding `D1^-a1 u_i S^(1-a)` (from the
+        captured triplets and the input weights) has norm > COND_MIN: normalize turns a numerically null row
+        (1e-17 rounding noise) into an arbitrary unit vector, on both sides.
+    The rows that are compared go to the run line (model on the same sub-batch) and to the spec line."""
     nr, ncol = a.shape
     sigp = {'entry': kind + '.predict', 'normalized': normalized}
     cases = []
-    sv = np.asarray(est.singular_values_, dtype=float)
-    well = k_out >= 1 and sv.min() > COND_MIN * max(sv.max(), 1e-300)
-    # norms of the un-normalised embedding rows: same estimator with normalized=False on the same triplets
-    raw_norm = None
-    if normalized:
-        try:
-            er = np.asarray(est.singular_vectors_left_, dtype=float)
-            if kind != 'PCA':
-                wr = dense.sum(axis=1) + (reg or 0.)
-                with np.errstate(all='ignore'):
-                    d = np.power(wr, fr)
-                    d = np.where(d == 0, 0., 1. / np.where(d == 0, 1., d))
-                    er = (er * d[:, None]) * np.power(sv, 1 - fs)[None, :]
-            raw_norm = np.linalg.norm(er, axis=1)
-        except Exception:
-            raw_norm = None
+    sv = np.asarray(sv_c, dtype=float)
+    div = kind == 'PCA' or fs != 0
+    sigma_ok = len(sv) >= 1 and np.all(np.isfinite(sv)) and sv.min() > COND_MIN * max(sv.max(), 1e-300)
+    er = np.asarray(u_c, dtype=float)
+    if kind != 'PCA':
+        wr = dense.sum(axis=1) + (reg or 0.)
+        with np.errstate(all='ignore'):
+            d = np.power(wr, fr)
+            d = np.where(d == 0, 0., 1. / np.where(d == 0, 1., d))
+            er = (er * d[:, None]) * np.power(sv, 1 - fs)[None, :]
+    raw_norm = np.linalg.norm(er, axis=1) if er.size else np.zeros(nr)
     for rows_i in rows:
+        if rows_i == 'wronglen':
+            # a vector of the wrong length is refused (ValueError) by the code and by the model
+            x = np.ones((1, ncol + 1))
+            run = predict_line(kind, est, reg, fr, fc, fs, normalized, ncol, x)
+            p = call(lambda: est.predict(x) is None or 'ok')
+            cases.append(Case(gkey + ('predict', 'wronglen'), dict(sigp, check='run'), run, p, None, False,
+                              dict(desc, predict='wronglen')))
+            continue
         idx = list(rows_i) if isinstance(rows_i, (list, tuple)) else [rows_i]
         x = dense[idx, :]
         single = not isinstance(rows_i, (list, tuple))
@@ -782,43 +876,44 @@ def predict_cases(ctx, kind, est, a, dense, reg, fr, fc, fs, normalized, rows, g
         xnnz = int(np.count_nonzero(x))
         pdesc = dict(desc, predict=idx)
         key = gkey + ('predict', tuple(idx), single)
-        if kind == 'PCA':
-            mc = getattr(est, 'means_col_', None)
-            run = 'c09.pca_predict %d %s %s %s %s %d %d %s' % (
-                ncol, enc_bool(normalized), enc_vec(est.singular_values_), enc_mat(est.singular_vectors_right_),
-                enc_vec(mc if mc is not None else []), len(idx), ncol, enc_mat(x))
-        else:
-            run = 'c09.predict %d %s %s %s %s %s %s %s %s %d %d %s' % (
-                ncol, enc_optf(reg), enc_f(fr), enc_f(fc), enc_f(fs), enc_bool(normalized), enc_vec(est.singular_values_),
-                enc_mat(est.singular_vectors_right_), enc_vec(est.weights_col_), len(idx), ncol, enc_mat(x))
         if isinstance(p, str):
             # every row of the fitted matrix (also an empty one: an isolated node) must be predictable
-            cases.append(Case(key, dict(sigp, check='predict-reproduces-embedding', empty_row=bool(xnnz == 0)), run, p,
+            cases.append(Case(key, dict(sigp, check='predict-reproduces-embedding', empty_row=bool(xnnz == 0)),
+                              predict_line(kind, est, reg, fr, fc, fs, normalized, ncol, x), p,
                               'c09.spec_raised ' + p.split(' ')[1], True, pdesc))
             continue
-        impl = 'ok e=' + out_mat(p)
-        spec = None
-        ok_rows = well and np.all(np.isfinite(p))
-        if ok_rows and raw_norm is not None:
-            # a row that is exactly null stays null on both sides; a tiny non-null one is amplified by the normalisation
-            # rows that are exactly null on both sides (diag_row = 0) are compared; a row that is null only up to
-            # rounding is turned into an arbitrary unit vector by the normalisation
-            exact_null = bool(np.all(p == 0) and np.all(np.asarray(est.embedding_row_)[idx] == 0))
-            ok_rows = bool(np.all(raw_norm[idx] > COND_MIN)) or exact_null
-        if ok_rows:
-            spec = 'c09.spec_close %d %d %s %s %s' % (len(idx), k_out, enc_mat(p), enc_mat(np.asarray(est.embedding_row_)[idx]),
-                                                     enc_f(TOL_PREDICT))
-        else:
-            ctx.count('ill-conditioned-skipped')
-        if not np.all(np.isfinite(p)):
-            run = None
-        if (kind == 'PCA' or fs != 0) and not ok_rows:
-            run = None      # x.V cancels to ~0 when sigma ~ 0: the quotient by a power of sigma is rounding noise
-        if run is None and spec is None:
+        good = list(range(len(idx)))
+        if div and not sigma_ok:
+            good = []
+        elif normalized:
+            good = [t for t in good if raw_norm[idx[t]] > COND_MIN]
+        if len(good) < len(idx):
+            ctx.count('predict-rows-masked', len(idx) - len(good))
+        if not good or p.shape[0] != len(idx):
+            if p.shape[0] != len(idx):
+                cases.append(Case(key, dict(sigp, check='predict-reproduces-embedding'), None, 'shape',
+                                  'c09.spec_raised wrong-number-of-rows', True, pdesc))
             continue
+        xg, pg = x[good, :], p[good, :]
+        run = predict_line(kind, est, reg, fr, fc, fs, normalized, ncol, xg)
+        impl = 'ok e=' + out_mat(pg)
+        spec = 'c09.spec_close %d %d %s %s %s' % (len(good), k_out, enc_mat(pg),
+                                                 enc_mat(np.asarray(est.embedding_row_)[[idx[t] for t in good]]),
+                                                 enc_f(TOL_PREDICT))
         cases.append(Case(key, dict(sigp, check='predict-reproduces-embedding'), run, impl, spec, k_out >= 1, pdesc,
-                          tol=TOL_PREDICT if (kind == 'PCA' or fs != 0) else None))
+                          tol=TOL_PREDICT))
     return cases
+
+
+def predict_line(kind, est, reg, fr, fc, fs, normalized, ncol, x):
+    if kind == 'PCA':
+        mc = getattr(est, 'means_col_', None)
+        return 'c09.pca_predict %d %s %s %s %s %d %d %s' % (
+            ncol, enc_bool(normalized), enc_vec(est.singular_values_), enc_mat(est.singular_vectors_right_),
+            enc_vec(mc if mc is not None else []), x.shape[0], x.shape[1], enc_mat(x))
+    return 'c09.predict %d %s %s %s %s %s %s %s %s %d %d %s' % (
+        ncol, enc_optf(reg), enc_f(fr), enc_f(fc), enc_f(fs), enc_bool(normalized), enc_vec(est.singular_values_),
+        enc_mat(est.singular_vectors_right_), enc_vec(est.weights_col_), x.shape[0], x.shape[1], enc_mat(x))
 
 
 # ---------------------------------------------------------------- RandomProjection
@@ -908,7 +1003,22 @@ def fit_louvain(ctx, a, which, fb=False):
                                                out_mat(getattr(est, 'embedding_col_', None)))
         spec = 'c09.spec_louvain %d %d %s %s %s %s' % (nr, ncol, enc_mat(dense), enc_list(est.labels_), enc_mat(est.embedding_),
                                                       enc_f(TOL_SPEC))
-        return [Case(gkey + ('run',), dict(sig0, check='closed-form'), run, impl, spec, a.nnz > 1, desc)]
+        cases = [Case(gkey + ('run',), dict(sig0, check='closed-form'), run, impl, spec, a.nnz > 1, desc)]
+        if not sq:
+            # the column block: closed form for the row labels re-indexed as documented (rank among the column labels
+            # carried by more than one column, -1 otherwise), computed here independently of the code and of the model
+            vals, counts = np.unique(np.asarray(lc, dtype=int), return_counts=True)
+            keep = [int(v) for v, c in zip(vals, counts) if c > 1]
+            labrow = [keep.index(int(l)) if int(l) in keep else -1 for l in lr]
+            ec = getattr(est, 'embedding_col_', None)
+            if ec is None:
+                cases.append(Case(gkey + ('col',), dict(sig0, check='closed-form', side='col'), None, 'none',
+                                  'c09.spec_raised embedding_col_-is-None', True, desc))
+            else:
+                cases.append(spec_case(gkey + ('col',), dict(sig0, check='closed-form', side='col'),
+                                       'c09.spec_louvain %d %d %s %s %s %s' % (ncol, nr, enc_mat(dense.T), enc_list(labrow),
+                                                                              enc_mat(ec), enc_f(TOL_SPEC)), desc, a.nnz > 1))
+        return cases
     return Fit([], builder)
 
 
@@ -1158,7 +1268,8 @@ def build_fits(ctx):
     add(fit_svd(ctx, 'GSVD', tri_iso, 2, 0.5, 0.5, 0.5, 0., False, 'dense', [3, [0, 3]]), 'degenerate-svd')
     add(fit_svd(ctx, 'GSVD', tri_iso, 2, None, 0.5, 0.5, 0., True, 'dense', [3]), 'degenerate-svd')
     add(fit_svd(ctx, 'PCA', tri_iso, 1, None, 0., 0., 0., False, 'dense', [3]), 'degenerate-svd')
-    add(fit_svd(ctx, 'SVD', tri_iso, 2, 2, 0., 0., 0.5, True, 'string', [3, 1]), 'degenerate-svd')
+    add(fit_svd(ctx, 'SVD', tri_iso, 2, 2, 0., 0., 0.5, True, 'string', [3, 1, 'wronglen']), 'degenerate-svd')
+    add(fit_svd(ctx, 'PCA', tri_iso, 2, None, 0., 0., 0., True, 'dense', ['wronglen', 0]), 'degenerate-svd')
     add(fit_rp(ctx, iso, 2, 0.5, 3, True, 0, True, 1), 'degenerate-rp')
     add(fit_rp(ctx, empty, 2, 0.5, 3, False, -1, True, 1), 'degenerate-rp')
     add(fit_louvain(ctx, iso, 'remove'), 'degenerate-louvain')
@@ -1209,11 +1320,7 @@ def fits_of_desc(ctx, d):
 def run(ctx):
     patch()
     run_fits(ctx, corpus_fits(ctx) + build_fits(ctx))
-    lost = sum(v for k, v in ctx.dist.items() if k.startswith('solver-exception:'))
-    ctx.extra['solver_exceptions'] = lost
-    if lost > SOLVER_EXCEPTION_BUDGET[ctx.tier]:
-        raise ToolFailure('%d fits lost to solver exceptions (budget %d): the run does not check the property'
-                          % (lost, SOLVER_EXCEPTION_BUDGET[ctx.tier]))
+    ctx.extra['solver_exceptions_counted_only'] = getattr(ctx, '_c09_solver_lost', 0)
     if ctx.evaluations < EVALUATION_FLOOR[ctx.tier]:
         raise ToolFailure('only %d evaluations (floor %d): the run does not check the property'
                           % (ctx.evaluations, EVALUATION_FLOOR[ctx.tier]))
@@ -1258,8 +1365,12 @@ def search(ctx, pending):
 
 def replay(ctx, payload):
     patch()
-    case = payload.get('case') or {}
+    case = payload.get('case') or (payload.get('what_no_longer_checks') or {}).get('case') or {}
     if 'estimator' in case:
         run_fits(ctx, fits_of_desc(ctx, case))
     else:
+        # nothing recorded to re-run: the generators, with the seed of the recorded run
+        import random
+        ctx.seed = payload.get('seed', ctx.seed)
+        ctx.rng = random.Random(ctx.seed * 1000003 + 9)
         run_fits(ctx, build_fits(ctx))
